@@ -24,7 +24,7 @@ PROPS["C10"] = dict(
     pkg="./props/codec", level="exploration", design_ref="DESIGN.md §3 C10",
     technique="rapid-generated field-map operation programs against reference maps, an independent tag=value scanner and a parse round trip",
     stages=[dict(name="rapid", kind="rapid", run="^TestC10_Rapid$", checks=(6000, 100000), shards=(12, 16), timeout=(400, 2400))],
-    require=["program-with:remove-then-set", "program-with:overwrite", "program-with:group", "program-with:copy", "program-with:clear", "program-with:copy-with-group"],
+    require=["program-with:remove-then-set", "program-with:overwrite", "program-with:group", "program-with:copy", "program-with:clear", "program-with:copy-with-group", "program-with:copy-into-used-message"],
     assumptions=["tags are used in their proper section (standard header/trailer tables); BodyLength(9), CheckSum(10) and the XMLData pair 212/213 are not set by the generated programs",
                  "group member tags are disjoint from scalar body tags (FIX forbids a tag twice outside a group)"],
 )
@@ -168,7 +168,7 @@ PROPS["C07"] = dict(
     technique="rapid state machine over option combinations and connect/logon/logout/disconnect/reset histories; oracle = justification of every store reset from the statement's conditions, required resets with counter values, stability of counters and stored messages otherwise, forward-only SequenceReset rules",
     level_note=SESSION_NOTE,
     stages=[dict(name="rapid", kind="rapid", run="^TestC07_Rapid$", checks=(1500, 30000), shards=(12, 16), timeout=(600, 3000))],
-    require=["history-with:reconnect-at-non-initial-counters", "history-with:reset-negotiated", "history-with:sequence-reset:lower", "history-with:sequence-reset:higher",
+    require=["history-with:reconnect-at-non-initial-counters", "history-with:application-sets-ResetSeqNumFlag=N", "history-with:application-sets-ResetSeqNumFlag=Y", "history-with:reset-negotiated", "history-with:sequence-reset:lower", "history-with:sequence-reset:higher",
              "history-with:reset-time-crossed", "history-with:logout", "history-with:disconnect", "store:file", "store:memory"],
     assumptions=["a logout that times out without an answer, and an initiator receiving an unsolicited ResetSeqNumFlag in the Logon answer, are not covered by the statement and only checked for 'no unjustified reset'",
                  "ResetSeqTime crossings are delivered through CheckResetTime with a virtual clock"],
